@@ -28,7 +28,10 @@ type totObs struct {
 	Callbacks  int
 	LimitHit   bool
 	WriterFail int
-	ReaderFail bool
+	// MatcherPanics: Rewrite calls left by a panicking ReferenceMatcher (the
+	// caller recovered and went on with the same InlineParser)
+	MatcherPanics int
+	ReaderFail    bool
 	// HealthyAfterFailed: healthy Format/Render calls made after a call whose
 	// writer had failed, in the same process
 	HealthyAfterFailed int
@@ -115,9 +118,24 @@ func checkC04(s *Scenario) (fail *Failure, obs *totObs) {
 			}
 			return hashString(l)%3 != 0
 		})
-		for mi, m := range []commonmark.ReferenceMatcher{nil, matcherFunc(func(string) bool { return true }), matcherFunc(func(l string) bool { return hashString(l)%2 == 0 }), reentrant} {
-			if (len(doc)+mi)%4 != 0 && !tierThorough {
-				continue // one of the four per document in the quick tier
+		// ... and a matcher that PANICS once (its k-th call): the caller recovers
+		// outside Rewrite, gives up on that block and goes on rewriting the
+		// remaining blocks through the same InlineParser - calls in which no
+		// callback misbehaves and which therefore must not panic (scratch state
+		// a change keeps on the parser and resets "at the end of parse" is left
+		// dirty by the unwinding)
+		type matcherBoom struct{}
+		boomAt, boomCalls := 1+int(hashBytes(3, doc)%5), 0
+		panicking := matcherFunc(func(l string) bool {
+			boomCalls++
+			if boomCalls == boomAt {
+				panic(matcherBoom{})
+			}
+			return hashString(l)%3 != 1
+		})
+		for mi, m := range []commonmark.ReferenceMatcher{nil, matcherFunc(func(string) bool { return true }), matcherFunc(func(l string) bool { return hashString(l)%2 == 0 }), reentrant, panicking} {
+			if (len(doc)+mi)%5 != 0 && !tierThorough {
+				continue // one of the five per document in the quick tier
 			}
 			begin("rewrite-matcher")
 			var bs []*commonmark.RootBlock
@@ -133,8 +151,28 @@ func checkC04(s *Scenario) (fail *Failure, obs *totObs) {
 			if mi == 3 {
 				reentrantIP = ip
 			}
-			for _, b := range bs {
-				ip.Rewrite(b)
+			if mi == 4 {
+				kept := bs[:0:0]
+				for _, b := range bs {
+					func() {
+						defer func() {
+							if r := recover(); r != nil {
+								if _, ours := r.(matcherBoom); !ours {
+									panic(r)
+								}
+								obs.MatcherPanics++
+								return // the interrupted block is dropped, not rendered
+							}
+							kept = append(kept, b)
+						}()
+						ip.Rewrite(b)
+					}()
+				}
+				bs = kept
+			} else {
+				for _, b := range bs {
+					ip.Rewrite(b)
+				}
 			}
 			end()
 			alt = append(alt, bs)
